@@ -93,6 +93,10 @@ def gen(item, rng, tier):
         # unique, attributable write values
         val = ((i + 1) * 0x0101010101010101 ^ rng.getrandbits(64)) & ((1 << (8 * size)) - 1)
         ops.append({'op': rng.choice(['r', 'w', 'w']), 'path': path, 'addr': addr, 'size': size, 'value': val})
+        if path == 'insn' and size == 4 and addr + 16 <= 0x100000000 and rng.random() < 0.25:        # (address wrap inside LDM/STM is an instruction matter, C03)
+            # LDM/STM r1,{r2..}: 2-4 consecutive word accesses, each with its own device lookup (may run across a device end or past 2^32)
+            ops[-1]['multi'] = rng.randrange(2, 5)
+            ops[-1]['value'] = ((i + 1) * 0x01010101010101010101010101010101 ^ rng.getrandbits(128)) & ((1 << (32 * ops[-1]['multi'])) - 1)
     if not big and rng.random() < 0.2:
         # re-configuration inside the history: a window is moved, two controllers swap places in the list, a controller is added late
         for _ in range(rng.randrange(1, 5)):
@@ -285,7 +289,12 @@ def run(case):
                 r.set(1, addr)
                 r.set(0, op['value'] & 0xFFFFFFFF)
                 load = op['op'] == 'r'
-                if size == 8:
+                nm = op.get('multi', 0)
+                if nm:
+                    for q in range(nm):
+                        r.set(2 + q, (op['value'] >> (32 * q)) & 0xFFFFFFFF)
+                    w = A.ldstm(load, 1, ((1 << nm) - 1) << 2, p=0, u=1, w=0)
+                elif size == 8:
                     r.set(2, op['value'] & 0xFFFFFFFF)
                     r.set(3, (op['value'] >> 32) & 0xFFFFFFFF)
                     w = A.ldsth('ldrd' if load else 'strd', 2, 1, 0)
@@ -303,7 +312,9 @@ def run(case):
                     viol.append({'oracle': 'hub.model', 'site': 'insn:' + op['op'], 'cls': 'unexpected_exception', 'tick': idx,
                                  'detail': 'LDR/STR at %#x size %d took an exception (mode %#x) with the MPU off' % (addr, size, r.cpsr.m)})
                     break
-                if load:
+                if load and nm:
+                    got = sum(r.get(2 + q) << (32 * q) for q in range(nm))
+                elif load:
                     got = r.get(0) if size != 8 else (r.get(2) | r.get(3) << 32)
         except Exception as e:
             name, site = M.exc_site(e)
@@ -313,7 +324,9 @@ def run(case):
         ticks += 1
         # model step.  LDRD/STRD is two word accesses (each with its own device lookup); everything else is one access
         parts = [(addr, size, op['value'], got)]
-        if path == 'insn' and size == 8:
+        if path == 'insn' and op.get('multi'):
+            parts = [((addr + 4 * q) & 0xFFFFFFFF, 4, (op['value'] >> (32 * q)) & 0xFFFFFFFF, None if got is None else (got >> (32 * q)) & 0xFFFFFFFF) for q in range(op['multi'])]
+        elif path == 'insn' and size == 8:
             parts = [(addr, 4, op['value'] & 0xFFFFFFFF, None if got is None else got & 0xFFFFFFFF),
                      ((addr + 4) & 0xFFFFFFFF, 4, (op['value'] >> 32) & 0xFFFFFFFF, None if got is None else (got >> 32) & 0xFFFFFFFF)]
         stop = False
